@@ -8,5 +8,6 @@ CONSTANTS
   Pressures <- MCPressures
   Amounts <- MCAmounts
   IdealRTs <- MCIdealRTs
+  Memo = "none"
   Variant = "isreal"
 CHECK_DEADLOCK FALSE
